@@ -1023,7 +1023,7 @@ func (t *Tree) Compile(file string, args []string, out io.Writer) (err error) {
 				_print("}")
 			}
 		case TypeRange:
-			if n.ParentDetect() {
+			if n.ParentDetect() && !n.ParentMultipleKey() {
 				_print("\nposition++")
 				break
 			}
